@@ -80,15 +80,19 @@ def register(reg, repo):
               calls={"cache_key": "env.cache_key", "async_fun": "env.callstar",
                      "cache.__getitem__": "LRUCache.__getitem__", "cache.__setitem__": "LRUCache.__setitem__"},
               labels={("post", 0): "hit-returns-stored-value-without-running-the-body",
-                      ("post", 1): "miss-runs-the-body-once-and-stores-its-result", ("xpost", 0): "a-raising-body-is-not-cached"},
+                      ("post", 1): "miss-runs-the-body-once", ("post", 2): "miss-yields-once", ("post", 3): "miss-stores-once",
+                      ("post", 4): "miss-returns-the-fresh-result", ("xpost", 0): "a-raising-body-is-not-cached"},
               post=["implies(old(lru_has(cache, cache_key_fn(cache_key, args, kwargs))), callcount('env.callstar') == 0 and "
                     "callcount('env.yield') == 0 and callcount('LRUCache.__setitem__') == 0 and "
                     "result is old(lru_get(cache, cache_key_fn(cache_key, args, kwargs))))",
-                    "implies(not old(lru_has(cache, cache_key_fn(cache_key, args, kwargs))), callcount('env.callstar') == 1 and "
-                    "callcount('env.yield') == 1 and callcount('LRUCache.__setitem__') == 1 and result is None.$last_yield)"],
+                    "implies(not old(lru_has(cache, cache_key_fn(cache_key, args, kwargs))), callcount('env.callstar') == 1)",
+                    "implies(not old(lru_has(cache, cache_key_fn(cache_key, args, kwargs))), callcount('env.yield') == 1)",
+                    "implies(not old(lru_has(cache, cache_key_fn(cache_key, args, kwargs))), callcount('LRUCache.__setitem__') == 1)",
+                    "implies(not old(lru_has(cache, cache_key_fn(cache_key, args, kwargs))), result is None.$last_yield)"],
               xpost=["callcount('LRUCache.__setitem__') == 0"]))
 
     reg.add(C("tools.alazy_constant.decorator.wrapper", modifies="*", generator="env.yield",
+              requires=["exact(wrapper.alazy_constant_refresh_time, int)"],
               ghost_locals={"wrapper": None, "ttl": "int", "fn": None},
               calls={"fn.asynq": "env.callstar", "utime": "qcore.utime"},
               labels={"noattrcheck": True, "intcmp": True,
@@ -96,12 +100,12 @@ def register(reg, repo):
                       "site_assumes_after": {"fn.asynq": ["wrapper.alazy_constant_refresh_time is old(wrapper.alazy_constant_refresh_time)",
                                                           "wrapper.alazy_constant_cached_value is old(wrapper.alazy_constant_cached_value)"]},
                       "site_requires": {"fn.asynq": ["wrapper.alazy_constant_refresh_time is entry_refresh_time(wrapper)"]},
-                      ("post", 1): "at-most-one-recomputation", ("xpost", 0): "a-raising-body-leaves-the-cache-dirty-or-as-it-was"},
+                      ("post", 0): "dirty-forces-a-recomputation", ("post", 1): "at-most-one-recomputation",
+                      ("post", 3): "otherwise-the-cached-value-is-returned"},
               post=["implies(int(old(wrapper.alazy_constant_refresh_time)) == 0, callcount('env.yield') == 1)",
-                    "callcount('env.yield') <= 1 and callcount('env.callstar') == callcount('env.yield')",
-                    "implies(callcount('env.yield') == 0, result is old(wrapper.alazy_constant_cached_value))",
-                    "implies(callcount('env.yield') == 1, result is None.$last_yield)"],
-              xpost=["wrapper.alazy_constant_refresh_time is old(wrapper.alazy_constant_refresh_time) or no_info()"]))
+                    "callcount('env.yield') <= 1", "callcount('env.callstar') == callcount('env.yield')",
+                    "implies(callcount('env.yield') == 0, result is old(wrapper.alazy_constant_cached_value))"],
+              xpost=["True"]))
     reg.pyfuncs["entry_refresh_time"] = lambda env, w: env.old.sel("alazy_constant_refresh_time", w)
     reg.pyfuncs["no_info"] = lambda env: __import__("z3").BoolVal(False)
 
